@@ -18,6 +18,8 @@ type Step struct {
 	Pause time.Duration
 	// Gate, when non-nil, is waited for before Data is handed out (explicit quiesce handle).
 	Gate <-chan struct{}
+	// Then, when non-nil, is called as soon as Data has been consumed by the tool's reader.
+	Then func()
 }
 
 // Feeder implements syncer.ChannelReader over a pipe fed by the harness.
@@ -80,6 +82,9 @@ func (f *Feeder) Play(plan []Step, eof bool) {
 				if err != nil {
 					return
 				}
+			}
+			if st.Then != nil {
+				st.Then()
 			}
 			if st.Pause > 0 {
 				select {
